@@ -25,7 +25,7 @@ type c15State struct {
 }
 
 func c15States(tier string) []c15State {
-	podSets := [][]string{{"web", "db", "cli2"}, {"web", "db"}, {"web-new", "db", "cli2"}, {"web", "db-plain", "cli2"}, {}, {"web", "db-noip"}}
+	podSets := [][]string{{"web", "db", "cli2"}, {"web", "db"}, {"web-new", "db", "cli2"}, {"web", "db-plain", "cli2"}, {}, {"web", "db-noip"}, {"web", "db", "bare"}}
 	pols := []string{"in-podsel", "in-ipblock", "eg-podsel-port", "in-two-peers", "both", "in-denyall"}
 	if tier == "thorough" {
 		podSets = append(podSets, []string{"web", "db", "cli2-off"}, []string{"web", "db", "cli2", "noip"})
@@ -326,6 +326,28 @@ func c15Job(shard, nshards int, tier string) Job {
 								continue
 							}
 							r.violate("C15", name, class, "kernel-rejected-a-batch", rejectKind(x), fmt.Sprintf("%s\n    %s", desc, x), []string{desc})
+						}
+						// independent of any second run of the implementation: a pod on the node that has an IP owns a pod chain iff some
+						// policy of its namespace selects it (API selector semantics)
+						for _, p := range states[ai].C.Pods {
+							if !p.OnNode || p.IP == "" {
+								continue
+							}
+							selected := false
+							for _, np := range states[ai].C.Policies {
+								if np.Namespace == p.NS && selMatches(&np.Spec.PodSelector, p.Labels) {
+									selected = true
+								}
+							}
+							has := false
+							for cn, rules := range s1.Chains {
+								if strings.HasPrefix(cn, "GLX-POD-") && strings.Contains(strings.Join(rules, "\n"), "--comment "+p.Name+"_"+p.NS+" ") {
+									has = true
+								}
+							}
+							if selected != has {
+								r.violate("C15", name, class, "pod-chain-presence-differs-from-policy-selection", "Run", fmt.Sprintf("%s\n    pod %s/%s labels %v: selected by a policy of its namespace: %v, pod chain present: %v", desc, p.NS, p.Name, p.Labels, selected, has), []string{desc})
+							}
 						}
 						want := ref(ai)
 						// the stale objects seeded into the kernel count as "referenced before" / "gone pods"
